@@ -462,13 +462,14 @@ NOCOPY = {"to": 0, "fn": "-", "src": 0, "bc": False, "orig": 0, "mid": 0, "arg":
 # ---------------------------------------------------------------------------------------------------------
 # recording: random histories (T) and forced scripts (R)
 # ---------------------------------------------------------------------------------------------------------
-def record_random(L, res, rng, horizon_s, order="random", max_events=1500, own_mask=None):
+def record_random(L, res, rng, horizon_s, order="random", max_events=1500, own_mask=None, plan=None):
     """one random history on real stacks.  Every foreign device follows a random life cycle (register; then keep renewing,
     go silent, unregister or have its entry deleted; register again, ...).  Broadcasts from random nodes and Read-FDT
     requests are placed at random instants and around every boundary of the life cycles (acknowledgement + TTL, + TTL + 5 s,
     + TTL + 30 s, unregistration + 5 s / + 30 s, the instant of a deletion, the next renewal).  At every instant the
     environment's actions, the due timers and the deliveries of the parked copies are interleaved (order: "fifo" = as the
-    library's own loop would, "random", "lifo")."""
+    library's own loop would, "random", "lifo").
+    plan: instead of the random life cycles, a fixed list of (second, what, args) environment actions."""
     import heapq
     rig = Rig(L, res, own_mask=own_mask)
     n = rig.n
@@ -498,7 +499,7 @@ def record_random(L, res, rng, horizon_s, order="random", max_events=1500, own_m
         return rng.choice([0, 0, 0, 1, res - 1, rng.randrange(res)]) / float(res)
 
     def probes(f, secs):
-        for sx in secs:
+        for sx in ([] if plan is not None else secs):
             if nprobe[0] > 160:
                 return
             nprobe[0] += 1
@@ -523,7 +524,7 @@ def record_random(L, res, rng, horizon_s, order="random", max_events=1500, own_m
             ttl = L["ttl"][f - 1]
             do("FDRegister", who=f)
             probes(f, [0, ttl])
-            r = rng.random()
+            r = rng.random() if plan is None else 2
             span = rng.choice([0, 0.5, 1, 1.5, 2.5]) * ttl + rng.choice([0, 0, 1, 2]) + jit()
             if r < 0.30:
                 at(span, "stop", f)
@@ -531,7 +532,7 @@ def record_random(L, res, rng, horizon_s, order="random", max_events=1500, own_m
                 at(span, "unreg", f)
             elif r < 0.85 and mgrs:
                 at(span, "del", f)
-            else:
+            elif r < 1:
                 probes(f, [2 * ttl, 3 * ttl])
         elif what == "stop":
             f = args[0]
@@ -540,29 +541,31 @@ def record_random(L, res, rng, horizon_s, order="random", max_events=1500, own_m
             if do("FDStopRenew", who=f):
                 base = last + ttl
                 probes(f, [base, base + 4, base + 5, base + 6, base + 29, base + 30, base + 31])
-                if rng.random() < 0.6:
+                if plan is None and rng.random() < 0.6:
                     at(max(0, base + rng.choice([2, 6, 31, 33])) + jit(), "reg", f)
         elif what == "unreg":
             f = args[0]
             if do("FDUnregister", who=f):
                 probes(f, [0, 4, 5, 6, 29, 30, 31])
-                if rng.random() < 0.7:
+                if plan is None and rng.random() < 0.7:
                     at(rng.choice([0, 0, 1, 6, 31]) + jit(), "reg", f)
         elif what == "del":
             f = args[0]
             nr = next_renewal_in(f)
             do("DeleteEntry", who=rng.choice(mgrs), d=L["bbmdof"][f - 1], mid=f)
             probes(f, [0, 0, nr, nr + 1])
-            r = rng.random()
+            r = rng.random() if plan is None else 2
             if r < 0.3:
                 at(nr + rng.choice([0, 1, 3]) + jit(), "unreg", f)
             elif r < 0.5:
                 at(nr + rng.choice([0, 1, 3]) + jit(), "stop", f)
 
     try:
-        for f in rig.fds:
+        for sec, what, args in (plan or []):
+            at(sec, what, *args)
+        for f in (rig.fds if plan is None else []):
             at(rng.choice([0, 0, 1, 2, 3]) + jit(), "reg", f)
-        for _ in range(rng.randint(3, 10)):
+        for _ in range(rng.randint(3, 10) if plan is None else 0):
             at(rng.randrange(0, H + 1) / float(res), "bcast", 0)
         if not rig.fds:                                   # no foreign device: a burst of broadcasts from every node
             for who in range(1, n + 1):
@@ -795,6 +798,28 @@ def random_layout(rng, small=False):
     return layout(role, subnet, bbmdof, ttl, bdt, mgrs), own_mask
 
 
+def silent_devices_plan(rng, res):
+    """k foreign devices with different TTLs at one BBMD register, go silent one after the other and expire while the table
+    is read every second and broadcasts keep coming: entries leave the table at different ticks"""
+    k = rng.randint(2, 4)
+    ttls = rng.sample([1, 2, 3, 4, 5, 7], k)
+    L = layout(["bbmd", "simple"] + ["foreign"] * k, [1, 1] + [2 + i for i in range(k)], [0, 0] + [1] * k, [0, 0] + ttls,
+               {1: [(1, False)]}, [2])
+    plan = []
+    order = list(range(3, 3 + k))
+    rng.shuffle(order)
+    for f in order:
+        t0 = rng.randrange(0, 2 * res) / float(res)
+        plan.append((t0, "reg", (f,)))
+        plan.append((t0 + rng.choice([0, 1, 2]) + rng.randrange(1, res + 1) / float(res) * 0.5, "stop", (f,)))
+    horizon = max(ttls) + 12
+    for sec in range(horizon):
+        plan.append((sec + rng.randrange(res) / float(res), "read", (1,)))
+        if rng.random() < 0.5:
+            plan.append((sec + rng.randrange(res) / float(res), "bcast", (rng.choice([1, 2] + order),)))
+    return L, plan, horizon
+
+
 def detect_sticky():
     """does BIPForeign.register() leave registrationStatus at -2 (the pinned tree's behaviour)?  Read off the real code so
     that the conformance model follows the tree when the finding gets repaired (the monitors do not depend on it)."""
@@ -810,8 +835,8 @@ def detect_sticky():
 # ---------------------------------------------------------------------------------------------------------
 # verdicts
 # ---------------------------------------------------------------------------------------------------------
-def history_class(t, l):
-    """classify the history up to step l (1-based) for the violation signature"""
+def history_class(t, l, m):
+    """classify the failing step l (1-based) of monitor m for the violation signature"""
     evs = t["evs"][:l]
     e = evs[-1]
     L = t["L"]
@@ -828,7 +853,10 @@ def history_class(t, l):
     sig = {"event": e["ev"], "role": role(e["who"])}
     if e["ev"] == "Rx":
         sig["frame"] = e["c"]["fn"]
-    if stuck:
+    # the acknowledgement of a registration made after an unregistration reaches a device that still considers itself
+    # unregistered (-2) / that device's own broadcast is dropped
+    if (m == "ServedAtLeastTTL" and e["ev"] == "Rx" and e["c"]["fn"] == "RS" and e["who"] in stuck) or \
+            (m == "OncePerNode" and e["ev"] == "Originate" and e["who"] in stuck):
         sig = {"history": "register-after-unregister", "fd_status": -2}
     return sig
 
@@ -847,7 +875,7 @@ def make_on_verdict(chk):
                 continue
             l = min(ls)
             ev = t["evs"][l - 1]
-            bad |= chk.violation(m, history_class(t, l),
+            bad |= chk.violation(m, history_class(t, l, m),
                                  {"layout": t["L"], "res": t["res"], "step": l, "event": {k: ev[k] for k in ("ev", "who", "mid", "d", "c", "exc")},
                                   "post_state": ev["st"], "prefix": [x[:4] for x in t["script"][:l]][-25:]}, replay)
         if t["bad_len"]:
@@ -994,6 +1022,13 @@ def main(tier, seed, parts="DRT"):
             kinds = set(e["ev"] for e in t["evs"])
             chk.case(("T", k, j), nontrivial=bool(kinds & {"FDRegister", "FDUnregister", "DeleteEntry"}) or
                      any(e["ev"] == "Rx" and e["c"]["fn"] in ("FW", "DB") for e in t["evs"]))
+    for k in range(40 if thorough else 6):
+        res = rng.choice([1, 2, 4])
+        L, plan, horizon = silent_devices_plan(rng, res)
+        t = record_random(L, res, random.Random(rng.randrange(1 << 30)), horizon, order=rng.choice(["random", "fifo"]), max_events=3000, plan=plan)
+        t["own_mask"] = {}
+        traces.append(t)
+        chk.case(("T-silent", k), nontrivial=True)
     for i, t in enumerate(traces):
         t["tid"] = i + 1
     for t in (traces[-1], traces[0]):
